@@ -37,7 +37,8 @@ static int ref_mai(int hsn, int maio, int n, uint32_t fn)
 
 static unsigned long n_eval, n_bad, n_dev;
 
-static uint16_t arfcn_of(int i) { return (uint16_t)(100 + 3 * i); }
+/* ARFCN values as the L1 carries them: 10 bit channel number plus the band flag bits (ARFCN_PCS 0x8000, ARFCN_UPLINK 0x4000) */
+static uint16_t arfcn_of(int i) { return (uint16_t)((100 + 3 * i) | ((i & 1) ? 0x8000 : 0) | ((i & 2) ? 0x4000 : 0)); }
 
 static void setup(int hsn, int maio, int n)
 {
